@@ -1504,3 +1504,36 @@ const EXTRA_FIELD_MAPPING: [u16; 49] = [
     0x5455, 0x554e, 0x5855, 0x6375, 0x6542, 0x7075, 0x756e, 0x7855, 0xa11e, 0xa220, 0xfd4a, 0x9901,
     0x9902,
 ];
+
+/// Thin wrappers around the private header serialisers for the external verification harness.
+/// Compiled only with `--cfg zip_rs_zip_verif`.
+#[cfg(zip_rs_zip_verif)]
+#[allow(missing_docs)]
+pub mod verif_hooks {
+    use super::*;
+
+    pub fn write_local_file_header<T: Write>(writer: &mut T, file: &ZipFileData) -> ZipResult<()> {
+        super::write_local_file_header(writer, file)
+    }
+    pub fn update_local_file_header<T: Write + io::Seek>(
+        writer: &mut T,
+        file: &ZipFileData,
+    ) -> ZipResult<()> {
+        super::update_local_file_header(writer, file)
+    }
+    pub fn write_central_directory_header<T: Write>(
+        writer: &mut T,
+        file: &ZipFileData,
+    ) -> ZipResult<()> {
+        super::write_central_directory_header(writer, file)
+    }
+    pub fn write_central_zip64_extra_field<T: Write>(
+        writer: &mut T,
+        file: &ZipFileData,
+    ) -> ZipResult<u16> {
+        super::write_central_zip64_extra_field(writer, file)
+    }
+    pub fn validate_extra_data(file: &ZipFileData) -> ZipResult<()> {
+        super::validate_extra_data(file)
+    }
+}
